@@ -340,25 +340,13 @@ def _wrap(f):
 @model("std::option::Option::<T>::map", reason="None -> None; Some(x) -> Some(f(x)) with f's own MIR expanded")
 def m_opt_map(px, st, fr, ev):
     t, f = ev["args"][0], ev["args"][1]
-    body = closure_body(f)
-    if body is None or body not in px.facts.bodies:
-        return None
-    a, b = split2(t, "Some", "None")
-    a.update({"inline": body, "args": call_args(f, [payload(t, "Some")]), "wrap": some})
-    b["value"] = NONE
-    return [a, b]
+    return _two_way(px, t, "Some", "None", ("call", f, [payload(t, "Some")], some), ("value", NONE), ev=ev)
 
 
 @model("std::option::Option::<T>::and_then", reason="None -> None; Some(x) -> f(x) with f's own MIR expanded")
 def m_opt_and_then(px, st, fr, ev):
     t, f = ev["args"][0], ev["args"][1]
-    body = closure_body(f)
-    if body is None or body not in px.facts.bodies:
-        return None
-    a, b = split2(t, "Some", "None")
-    a.update({"inline": body, "args": call_args(f, [payload(t, "Some")])})
-    b["value"] = NONE
-    return [a, b]
+    return _two_way(px, t, "Some", "None", ("call", f, [payload(t, "Some")], None), ("value", NONE), ev=ev)
 
 
 @model("std::result::Result::<T, E>::map_err", reason="Ok(x) -> Ok(x); Err(e) -> Err(f(e))")
@@ -404,6 +392,177 @@ def m_bool_then(px, st, fr, ev):
     else:
         a["value"] = some(("call_closure", f))
     return [a, b]
+
+
+def _inl(px, f, args, wrap=None, ev=None):
+    """outcome fragment applying callable f to args: its MIR body is expanded when it is crate-local; a foreign fn item
+    becomes the same uninterpreted call term a direct call would produce (None when f is not a known callable)"""
+    body = closure_body(f)
+    if body is not None and body in px.facts.bodies:
+        d = {"inline": body, "args": call_args(f, args)}
+        if wrap is not None:
+            d["wrap"] = wrap
+        return d
+    if isinstance(f, tuple) and f and f[0] == "fn" and ev is not None:
+        r = ("call", f[1], tuple(args), ev["uid"])
+        return {"value": wrap(r) if wrap is not None else r}
+    return None
+
+
+def _ident(v):
+    return v
+
+
+def _two_way(px, t, good, bad, on_good, on_bad, ev=None):
+    """generic combinator: on_good / on_bad are ("value", term) or ("call", f, args, wrap)"""
+    a, b = split2(t, good, bad)
+    for o, spec in ((a, on_good), (b, on_bad)):
+        if spec[0] == "value":
+            o["value"] = spec[1]
+        else:
+            frag = _inl(px, spec[1], spec[2], spec[3], ev)
+            if frag is None:
+                return None
+            o.update(frag)
+    return [a, b]
+
+
+@model("std::option::Option::<T>::zip", reason="zip: Some((a, b)) iff both are Some")
+def m_opt_zip(px, st, fr, ev):
+    x, y = ev["args"]
+    tup = agg("tuple", None, None, (("0", payload(x, "Some")), ("1", payload(y, "Some"))))
+    return [
+        {"label": "Some,Some", "value": some(tup), "assume": (lambda c: c.set_variant(x, "Some") and c.set_variant(y, "Some"))},
+        {"label": "Some,None", "value": NONE, "assume": (lambda c: c.set_variant(x, "Some") and c.set_variant(y, "None"))},
+        {"label": "None", "value": NONE, "assume": (lambda c: c.set_variant(x, "None"))},
+    ]
+
+
+@model("std::option::Option::<T>::map_or", reason="None -> default; Some(x) -> f(x)")
+def m_opt_map_or(px, st, fr, ev):
+    t, d, f = ev["args"]
+    return _two_way(px, t, "Some", "None", ("call", f, [payload(t, "Some")], None), ("value", d), ev=ev)
+
+
+@model("std::result::Result::<T, E>::map_or", reason="Err -> default; Ok(x) -> f(x)")
+def m_res_map_or(px, st, fr, ev):
+    t, d, f = ev["args"]
+    return _two_way(px, t, "Ok", "Err", ("call", f, [payload(t, "Ok")], None), ("value", d), ev=ev)
+
+
+@model("std::option::Option::<T>::map_or_else", reason="None -> d(); Some(x) -> f(x)")
+def m_opt_map_or_else(px, st, fr, ev):
+    t, d, f = ev["args"]
+    return _two_way(px, t, "Some", "None", ("call", f, [payload(t, "Some")], None), ("call", d, [], None), ev=ev)
+
+
+@model("std::result::Result::<T, E>::map_or_else", reason="Err(e) -> d(e); Ok(x) -> f(x)")
+def m_res_map_or_else(px, st, fr, ev):
+    t, d, f = ev["args"]
+    return _two_way(px, t, "Ok", "Err", ("call", f, [payload(t, "Ok")], None), ("call", d, [payload(t, "Err")], None), ev=ev)
+
+
+@model("std::option::Option::<T>::unwrap_or_else", reason="Some(x) -> x; None -> f()")
+def m_opt_unwrap_or_else(px, st, fr, ev):
+    t, f = ev["args"]
+    return _two_way(px, t, "Some", "None", ("value", payload(t, "Some")), ("call", f, [], None), ev=ev)
+
+
+@model("std::result::Result::<T, E>::unwrap_or_else", reason="Ok(x) -> x; Err(e) -> f(e)")
+def m_res_unwrap_or_else(px, st, fr, ev):
+    t, f = ev["args"]
+    return _two_way(px, t, "Ok", "Err", ("value", payload(t, "Ok")), ("call", f, [payload(t, "Err")], None), ev=ev)
+
+
+@model("std::result::Result::<T, E>::unwrap_or", reason="Ok(x) -> x; Err -> default")
+def m_res_unwrap_or(px, st, fr, ev):
+    t, d = ev["args"]
+    return _two_way(px, t, "Ok", "Err", ("value", payload(t, "Ok")), ("value", d), ev=ev)
+
+
+@model("std::option::Option::<T>::unwrap_or_default", reason="Some(x) -> x; None -> Default::default()")
+def m_opt_unwrap_or_default(px, st, fr, ev):
+    t = ev["args"][0]
+    return _two_way(px, t, "Some", "None", ("value", payload(t, "Some")), ("value", default_of(ev["dest"]["ty"])), ev=ev)
+
+
+@model("std::option::Option::<T>::is_some_and", reason="None -> false; Some(x) -> f(x)")
+def m_opt_is_some_and(px, st, fr, ev):
+    t, f = ev["args"]
+    return _two_way(px, t, "Some", "None", ("call", f, [payload(t, "Some")], None), ("value", FALSE), ev=ev)
+
+
+@model("std::option::Option::<T>::is_none_or", reason="None -> true; Some(x) -> f(x)")
+def m_opt_is_none_or(px, st, fr, ev):
+    t, f = ev["args"]
+    return _two_way(px, t, "Some", "None", ("call", f, [payload(t, "Some")], None), ("value", TRUE), ev=ev)
+
+
+@model("std::result::Result::<T, E>::is_ok_and", reason="Err -> false; Ok(x) -> f(x)")
+def m_res_is_ok_and(px, st, fr, ev):
+    t, f = ev["args"]
+    return _two_way(px, t, "Ok", "Err", ("call", f, [payload(t, "Ok")], None), ("value", FALSE), ev=ev)
+
+
+@model("std::result::Result::<T, E>::is_err_and", reason="Ok -> false; Err(e) -> f(e)")
+def m_res_is_err_and(px, st, fr, ev):
+    t, f = ev["args"]
+    return _two_way(px, t, "Ok", "Err", ("value", FALSE), ("call", f, [payload(t, "Err")], None), ev=ev)
+
+
+@model("std::option::Option::<T>::ok_or_else", reason="Some(x) -> Ok(x); None -> Err(f())")
+def m_opt_ok_or_else(px, st, fr, ev):
+    t, f = ev["args"]
+    return _two_way(px, t, "Some", "None", ("value", ok(payload(t, "Some"))), ("call", f, [], err), ev=ev)
+
+
+@model("std::option::Option::<T>::or_else", reason="Some(x) -> Some(x); None -> f()")
+def m_opt_or_else(px, st, fr, ev):
+    t, f = ev["args"]
+    return _two_way(px, t, "Some", "None", ("value", some(payload(t, "Some"))), ("call", f, [], None), ev=ev)
+
+
+@model("std::result::Result::<T, E>::and_then", reason="Ok(x) -> f(x); Err(e) -> Err(e)")
+def m_res_and_then(px, st, fr, ev):
+    t, f = ev["args"]
+    return _two_way(px, t, "Ok", "Err", ("call", f, [payload(t, "Ok")], None), ("value", err(payload(t, "Err"))), ev=ev)
+
+
+@model("std::result::Result::<T, E>::or_else", reason="Ok(x) -> Ok(x); Err(e) -> f(e)")
+def m_res_or_else(px, st, fr, ev):
+    t, f = ev["args"]
+    return _two_way(px, t, "Ok", "Err", ("value", ok(payload(t, "Ok"))), ("call", f, [payload(t, "Err")], None), ev=ev)
+
+
+@model("std::result::Result::<T, E>::err", reason="Ok -> None; Err(e) -> Some(e)")
+def m_res_err(px, st, fr, ev):
+    t = ev["args"][0]
+    return _two_way(px, t, "Ok", "Err", ("value", NONE), ("value", some(payload(t, "Err"))), ev=ev)
+
+
+@model("std::option::Option::<T>::and", reason="None -> None; Some -> other")
+def m_opt_and(px, st, fr, ev):
+    t, o = ev["args"]
+    return _two_way(px, t, "Some", "None", ("value", o), ("value", NONE), ev=ev)
+
+
+@model("std::option::Option::<&T>::copied", "std::option::Option::<&T>::cloned", "std::option::Option::<&mut T>::copied",
+       "std::option::Option::<&mut T>::cloned", reason="Some(&x) -> Some(x); None -> None")
+def m_opt_copied(px, st, fr, ev):
+    t = ev["args"][0]
+    inner = deref_val(px, st, payload(t, "Some"), depth=1)
+    return _two_way(px, t, "Some", "None", ("value", some(inner)), ("value", NONE), ev=ev)
+
+
+@model("core::bool::<impl bool>::then_some", reason="true -> Some(v); false -> None")
+def m_bool_then_some(px, st, fr, ev):
+    t, v = ev["args"]
+    if is_const(t):
+        return val(some(v) if t[1] else NONE)
+    return [
+        {"label": "true", "value": some(v), "assume": (lambda c: c.set_known(t, 1))},
+        {"label": "false", "value": NONE, "assume": (lambda c: c.set_known(t, 0))},
+    ]
 
 
 @model("std::ops::Try::branch", reason="`?`: Ok/Some -> Continue(payload); Err/None -> Break(residual)")
@@ -611,6 +770,9 @@ def deep_deref(px, st, t, depth=0):
 @model("std::cmp::PartialEq::eq", reason="== as an uninterpreted symmetric predicate over the compared values")
 def m_eq(px, st, fr, ev):
     a, b = ev["args"]
+    if ev["callee"].get("res_local") and ev["callee"].get("res_path") in px.facts.bodies and \
+            px.inline(ev["callee"], len(st.frames)):
+        return None     # a crate-local (e.g. derived) impl: its own MIR is expanded instead
     x = deep_deref(px, st, seq_of(px, st, a))
     y = deep_deref(px, st, seq_of(px, st, b))
     if TY.get(x) is not None or TY.get(y) is not None or (is_const(x) and is_const(y)):
@@ -625,6 +787,9 @@ def m_eq(px, st, fr, ev):
 @model("std::cmp::PartialEq::ne", reason="!= is the negation of ==")
 def m_ne(px, st, fr, ev):
     a, b = ev["args"]
+    if ev["callee"].get("res_local") and ev["callee"].get("res_path") in px.facts.bodies and \
+            px.inline(ev["callee"], len(st.frames)):
+        return None
     x = seq_of(px, st, a)
     y = seq_of(px, st, b)
     if TY.get(x) is not None or TY.get(y) is not None:
